@@ -124,6 +124,28 @@ class StrV:
     s: str
 
 
+@dataclass(frozen=True)
+class CoroV:
+    """state object of an `async fn` body (coroutine): `state` is the resume point (0 = not started), `upvars` the captured arguments
+    (field index -> value), `saved` the locals kept across suspension points ((variant, field index) -> value)"""
+    state: int
+    upvars: tuple      # tuple of (idx, value)
+    saved: tuple       # tuple of ((variant, idx), value)
+    ty: str = ""
+
+    def up(self, idx):
+        for k, v in self.upvars:
+            if k == idx:
+                return v
+        return None
+
+    def sv(self, key):
+        for k, v in self.saved:
+            if k == key:
+                return v
+        return None
+
+
 class RefV:
     __slots__ = ("frame", "local", "proj", "ty")
 
@@ -149,6 +171,7 @@ ENUMS = {
     "ControlFlow": ["Continue", "Break"],
     "Bound": ["Included", "Excluded", "Unbounded"],
     "Entry": ["Occupied", "Vacant"],       # std::collections::{hash_map,btree_map}::Entry
+    "Poll": ["Ready", "Pending"],
 }
 
 
@@ -745,6 +768,16 @@ class Exec:
         return IntV(t, "u8")
 
     def field(self, val, idx, ty):
+        if isinstance(val, CoroV):
+            v = val.up(idx)
+            if v is None:
+                raise Unsupported(f"coroutine upvar {idx} not provided")
+            return v
+        if isinstance(val, _Down) and isinstance(val.e, CoroV):
+            v = val.e.sv((val.variant, idx))
+            if v is None:
+                raise Unsupported(f"read of coroutine slot {val.variant}.{idx} before it was written")
+            return v
         if isinstance(val, AggV):
             if idx >= len(val.fields):
                 raise Unsupported(f"field {idx} of {val}")
@@ -815,6 +848,16 @@ class Exec:
         if not proj:
             return val
         p = proj[0]
+        if isinstance(cur, CoroV):
+            if p[0] == "field":
+                ups = [(k, v) for k, v in cur.upvars if k != p[1]]
+                ups.append((p[1], self._update(cur.up(p[1]), proj[1:], val, p[2])))
+                return CoroV(cur.state, tuple(ups), cur.saved, cur.ty)
+            if p[0] == "downcast" and len(proj) > 1 and proj[1][0] == "field":
+                key = (p[1], proj[1][1])
+                sv = [(k, v) for k, v in cur.saved if k != key]
+                sv.append((key, self._update(cur.sv(key), proj[2:], val, proj[1][2])))
+                return CoroV(cur.state, cur.upvars, tuple(sv), cur.ty)
         if p[0] in ("field", "cindex"):
             idx = p[1]
             if isinstance(cur, AggV):
@@ -1001,6 +1044,9 @@ class Exec:
             cur = self.read_place(fr, pl) if pl.local in fr.locals else None
             ty = self.place_ty(fr, pl)
             vi = int(rhs.strip())
+            if isinstance(cur, CoroV):
+                self.write_place(fr, pl, CoroV(vi, cur.upvars, cur.saved, cur.ty))
+                return
             pays = cur.payloads if isinstance(cur, EnumV) else ()
             self.write_place(fr, pl, EnumV(vi, pays, ty))
             return
@@ -1159,6 +1205,8 @@ class Exec:
         raise Unsupported(f"aggregate `{path}` for type `{dty}`")
 
     def discriminant(self, v, dty):
+        if isinstance(v, CoroV):
+            return IntV(v.state, dty or "u32")
         if isinstance(v, EnumV):
             return IntV(v.disc, dty or "isize")
         if isinstance(v, OpaqueV):
@@ -1460,9 +1508,21 @@ class Exec:
             raise Unsupported(f"terminator `{t}`")
         left, right = t[:idx].strip(), t[idx + 4:].strip()
         dest = None
-        if " = " in left and re.match(r"^[\(\*_\w\.\s:<>&',\[\]]+? = ", left) and _is_assign(left):
-            d, left = left.split(" = ", 1)
-            dest = parse_place(d.strip())
+        if " = " in left and _is_assign(left):
+            # split at the first ` = ` outside any bracket (the destination place may carry a type with `#`, `{}`, `()`: coroutine slots)
+            depth = 0
+            cut = -1
+            for i, ch in enumerate(left):
+                if ch in "([{":
+                    depth += 1
+                elif ch in ")]}":
+                    depth -= 1
+                elif ch == "=" and depth == 0 and left[i - 1:i + 2] == " = ":
+                    cut = i - 1
+                    break
+            if cut > 0:
+                d, left = left[:cut], left[cut + 3:]
+                dest = parse_place(d.strip())
         # callee and args
         assert left.endswith(")"), t
         depth = 0
